@@ -21,6 +21,14 @@ def missingCol (numRows tr td : Nat) (adj : Option (List Triple)) : List Triple 
   | none => List.replicate numRows ⟨if td = 0 then some 0 else none, 0, td - 1⟩
   | some a => (a.take numRows).map fun t => ⟨none, t.rep, if t.dfn < td then t.dfn else td - 1⟩
 
+/-- MIRROR of `missingPage.Slice(i, j)` followed by `Values()` (convert.go:821-845) for a column
+    without adjacent chunk (`maxRepetitionLevel = 0`): a fresh `missingColumnChunk` of `j - i` rows
+    with the type, column and levels of the page copied field by field. `copyDef` = the struct
+    literal copies `maxDefinitionLevel` (the code as it stands); `false` = the field is left out
+    (slip of seed C12-5b: the slice reads as a REQUIRED column). -/
+def missingSlice (copyDef : Bool) (td i j : Nat) : List Triple :=
+  missingCol (j - i) 0 (if copyDef then td else 0) none
+
 /-- `findAdjacentColumnChunk`: among the target leaves with the same parent path (the fields
     `all` of the enclosing target group) and the same max repetition level that exist in the
     source, the LAST one (the `return` only leaves the callback); `self` is skipped. -/
